@@ -93,3 +93,58 @@ def run(ctx: lib.Ctx) -> None:
                                    'note': 'hash instructions are outside the Coq model: oracle-only comparison with hashlib / an independent Keccak-256',
                                    'repro': f"from pytezos.michelson.repl import Interpreter; print(Interpreter().execute('PUSH bytes 0x{data.hex()} ; {prim}').stack.items)"},
                                   found=True)
+
+
+# --------------------------------------------------------------------------------------
+# oracle-only: lambdas are packable / duplicable whatever their signature mentions, also when they sit inside a compound value
+# --------------------------------------------------------------------------------------
+LAMBDA_SIGS = [
+    ('(ticket nat)', 'unit', '{ DROP ; UNIT }'),
+    ('unit', 'operation', '{ FAILWITH }'),
+    ('(big_map nat nat)', 'nat', '{ DROP ; PUSH nat 0 }'),
+    ('(sapling_state 8)', 'unit', '{ DROP ; UNIT }'),
+    ('(list operation)', 'unit', '{ DROP ; UNIT }'),
+    ('(pair nat (ticket string))', 'unit', '{ DROP ; UNIT }'),
+    ('nat', 'nat', '{ }'),
+]
+WRAPS = [
+    ('bare', lambda sig: ''),
+    ('pair', lambda sig: ' ; PUSH nat 1 ; PAIR'),
+    ('option', lambda sig: ' ; SOME'),
+    ('or', lambda sig: ' ; LEFT nat'),
+    ('list', lambda sig: f' ; NIL (lambda {sig}) ; SWAP ; CONS'),
+    ('map', lambda sig: f' ; SOME ; EMPTY_MAP nat (lambda {sig}) ; SWAP ; PUSH nat 1 ; UPDATE'),
+    ('nested', lambda sig: ' ; SOME ; PUSH string "a" ; PAIR ; RIGHT unit'),
+]
+
+
+def lambda_signatures(ctx: lib.Ctx) -> None:
+    from pytezos.michelson.repl import Interpreter
+
+    reported = 0
+    for a, b, body in LAMBDA_SIGS:
+        sig = f'{a} {b}'
+        for wname, wrap in WRAPS:
+            base = f'LAMBDA {a} {b} {body}{wrap(sig)}'
+            for op in ('DUP', 'FAILWITH', 'PACK'):
+                prog = f'{base} ; {op}'
+                r = Interpreter().execute(prog)
+                why = None
+                if op == 'DUP':
+                    if r.error is not None or len(r.stack.items) != 2:
+                        why = f'DUP of a {wname} holding a lambda must succeed (lambdas are duplicable whatever their signature): {r.error!r}'
+                elif op == 'PACK':
+                    if r.error is not None or len(r.stack.items) != 1 or r.stack.items[0].prim != 'bytes':
+                        why = f'PACK of a {wname} holding a lambda must succeed (lambdas are packable whatever their signature): {r.error!r}'
+                else:
+                    args = getattr(r.error, 'args', ()) if r.error is not None else ()
+                    if not (len(args) >= 2 and args[-2] == 'FAILWITH'):
+                        why = f'FAILWITH on a {wname} holding a lambda must fail WITH THAT VALUE, got {r.error!r}'
+                ctx.case((prog,), nontrivial=True, kind=None)
+                ctx.dist['stream:lambda-signature-oracle'] += 1
+                if why and reported < 2:
+                    reported += 1
+                    ctx.violation(why[:300], {'program': prog, 'stream': 'lambda-signature-oracle',
+                                              'note': 'oracle-only (ticket / big_map / sapling_state / PACK are outside the Coq model)',
+                                              'repro': f"from pytezos.michelson.repl import Interpreter; r=Interpreter().execute({prog!r}); print(r.error, r.stack)"},
+                                  found=True)
